@@ -841,7 +841,7 @@ func main() {
 			if t == "thorough" {
 				return 16 * time.Minute
 			}
-			return 60 * time.Second
+			return 100 * time.Second
 		},
 	})
 }
